@@ -126,7 +126,9 @@ func init() {
 						cur = nil
 					}
 				case "rollback", "load", "reopen", "lfo", "delfrom":
-					if out.Err == nil && !out.Expect.Noop {
+					// (LoadVersion on a store without versions loads nothing: the handle keeps its
+					// uncommitted writes, and so does this record)
+					if out.Err == nil && !out.Expect.Noop && !(op.Kind == "load" && latestBefore == 0) {
 						cur = nil
 					}
 				}
